@@ -102,7 +102,12 @@ def fmtTicks (t : Int) : Bytes :=
   let frac := (ticks % 10000000).toNat   -- [0, 1e7)
   Civil.fmtDateTime sec ++ Civil.fmtFrac7 (frac * 100)
 
+/-- the repo's v2 reassembly: time_mid and time_hi only (time_low holds the local identifier) -/
+def timeV2 (u : Bytes) : Nat := be ((u.drop 4).take 2) * 2 ^ 32 + (be ((u.drop 6).take 2) % 4096) * 2 ^ 48
+
 def clockSeq (u : Bytes) : Nat := be ((u.drop 8).take 2) % 16384
+/-- `u[8] & 0x3f`: the clock sequence of a DCE (v2) UUID -/
+def clockSeqV2 (u : Bytes) : Nat := u.getD 8 0 % 64
 def nodeId (u : Bytes) : Bytes := (u.drop 10).take 6
 def domainName (d : Nat) : Bytes :=
   if d = 0 then strBytes "Person" else if d = 1 then strBytes "Group" else if d = 2 then strBytes "Org"
@@ -122,13 +127,14 @@ def describe (u : Bytes) : Info :=
        [⟨strBytes "Clock sequence", natToDec (clockSeq u)⟩]) []
   | 2 => .mk (strBytes "UUID v2 (DCE)")
       ([⟨strBytes "Domain", domainName (u.getD 9 0)⟩, ⟨strBytes "Id", natToDec (be (u.take 4))⟩,
-        ⟨strBytes "Node id", hexEncode (nodeId u)⟩] ++ timeAttrs (timeV1 u) ++
-       [⟨strBytes "Clock sequence", natToDec (clockSeq u)⟩]) []
+        ⟨strBytes "Node id", hexEncode (nodeId u)⟩] ++ timeAttrs (timeV2 u) ++
+       [⟨strBytes "Clock sequence", natToDec (clockSeqV2 u)⟩]) []
   | 3 => .mk (strBytes "UUID v3 (MD5)") [] []
   | 4 => .mk (strBytes "UUID v4 (random)") [] []
   | 5 => .mk (strBytes "UUID v5 (SHA1)") [] []
   | 6 => .mk (strBytes "UUID v6 (reordered Gregorian time)") (timeAttrs (timeV6 u)) []
   | 7 => .mk (strBytes "UUID v7 (Unix epoch time)") (timeAttrs (timeV7 u)) []
+  | 8 => .mk (strBytes "UUID v8 (custom)") [] []
   | 15 => .mk (if allEq u 255 then strBytes "UUID (Max UUID)" else strBytes "UUID (unknown type)") [] []
   | _ => .mk (strBytes "UUID (unknown type)") [] []
 
